@@ -5,8 +5,12 @@ ROOT = os.path.dirname(os.path.abspath(__file__))
 BASE = "cd /repo && GOFLAGS=-mod=mod GOPROXY=off go test -vet=off -count=1 -timeout 25m ./..."
 NOTE = ("Trusted: Coq 8.16.1 kernel and vm_compute (no native_compute); no axioms (every Print Assumptions is 'Closed under the global "
         "context'); the go2v translator; the Go harness/oracle; Go toolchain and third-party libraries. See DESIGN.md section 7.")
-SOURCE_COMMITS = []  # hook commits in /repo (none so far: the harness uses the public API only)
+SOURCE_COMMITS = ["05f9ccb verif hooks: export template rendering behind the 'verif' build tag"]
 CLAIMED = {
+ "C17": dict(ref="5 C17", technique="Rocq/Coq proof over the template literals go2v extracts + byte-for-byte in-Coq correspondence of rendered pages",
+   text="C17_extract_* / _values_* / _no_breakout_* / _no_script_url hold for ALL substituted byte strings; the page model is derived from the template constants regenerated from template.go "
+        "(shape lemmas by vm_compute). The model page is compared byte for byte with the page produced by the provider's own template objects for every byte value in every position, hostile "
+        "strings and long values; an independent HTML tokenizer checks structure and values; CR handling is the known finding F-17a."),
  "C13": dict(ref="5 C13", technique="Rocq/Coq proof by symbolic execution of the chain go2v extracts from logout.go + in-Coq correspondence",
    text="logout_table (complete decision table of logoutHandleFunc for all requests, metadata and instants) is re-proved on the extracted chain on every run; C13_success_iff, _echo, _target follow, "
         "C13_parameters_read pins the set of request parameters the handler reads. Generated logout requests (21 mutation classes x transports x 0-2 SLO entries) run against the real handler "
